@@ -337,3 +337,228 @@ Fixpoint cmismatches_from (i : nat) (cs : list ccase) : list nat :=
   | c :: cs' => if check_ccase c then cmismatches_from (S i) cs' else i :: cmismatches_from (S i) cs'
   end.
 Definition cmismatches := cmismatches_from 0.
+
+(* ---- DAG correspondence: construction history, DepthFirstSort, and acceptance of the observed
+        controlled-schedule trace by the transition system ---- *)
+From GO Require Import Model.Dag.
+
+Inductive oevent :=
+| OEnter (v : vid) (k : nat)
+| OExit (v : vid) (k : nat) (r : outcome)
+| OCancel
+| OQuiet.      (* the harness saw no event for the grace period *)
+
+Record gcase := mkGCase {
+  gc_ops : list gop;
+  gc_serial : bool;
+  gc_cap : N;
+  gc_dot : str;                     (* Graph.String() *)
+  gc_dfs : option (list vid);       (* DepthFirstSort: Some order | None = cycle error *)
+  gc_events : list oevent;
+  gc_nil : bool;                    (* Run returned nil *)
+  gc_result : list gerr;            (* entries of the *Errors value otherwise *)
+  gc_hang : bool
+}.
+
+Definition gerr_eqb (a b : gerr) : bool :=
+  match a, b with
+  | XNilTask, XNilTask | XMissingID, XMissingID | XCycle, XCycle | XCancel, XCancel => true
+  | XMissingFn x, XMissingFn y | XTask x, XTask y | XSkipped x, XSkipped y => str_eqb x y
+  | XDupDep a1 b1, XDupDep a2 b2 => str_eqb a1 a2 && str_eqb b1 b2
+  | _, _ => false
+  end.
+
+(* multiset equality of error entries *)
+Fixpoint remove_gerr (x : gerr) (l : list gerr) : option (list gerr) :=
+  match l with
+  | [] => None
+  | y :: r => if gerr_eqb x y then Some r else match remove_gerr x r with Some r' => Some (y :: r') | None => None end
+  end.
+Fixpoint gerrs_same (a b : list gerr) : bool :=
+  match a with
+  | [] => match b with [] => true | _ => false end
+  | x :: a' => match remove_gerr x b with Some b' => gerrs_same a' b' | None => false end
+  end.
+
+Section Accept.
+  Variable g : graph.
+  Variable cf : config.
+  Notation dstep := (dstep g cf).
+
+  Definition try_label (st : dstate) (l : label) : dstate * bool :=
+    match dstep st l with Some st' => (st', true) | None => (st, false) end.
+
+  (* one round of what the scheduler does without any task function being involved: receive
+     finished threads and helper goroutines, launch vertices that do not get a real thread
+     (skipped ones, or any while errors are recorded), notice a cancellation *)
+  Definition first_some {A} (f : vid -> option A) (l : list vid) : option A :=
+    List.fold_left (fun acc v => match acc with Some _ => acc | None => f v end) l None.
+
+  Definition pseudo_pick (st : dstate) (v : vid) : option dstate :=
+    if eligible g st v && (status_eqb (d_status st v) Skip ||
+                           match d_errs (ctx_check st) with [] => false | _ => true end)
+    then dstep st (LPick v) else None.
+
+  Definition drain_step (st : dstate) : option dstate :=
+    match first_some (fun v => dstep st (LRecvReal v)) (vids g) with
+    | Some s => Some s
+    | None =>
+        match d_pseudo st with
+        | (v, b) :: _ => dstep st (LRecvPseudo v b)
+        | [] =>
+            match first_some (pseudo_pick st) (vids g) with
+            | Some s => Some s
+            | None => if d_cancelled st && negb (d_handled st) then dstep st LIdle else None
+            end
+        end
+    end.
+
+  Fixpoint drain (fuel : nat) (st : dstate) : dstate :=
+    match fuel with
+    | O => st
+    | S f => match drain_step st with Some s => drain f s | None => st end
+    end.
+
+  (* at a quiescent point every vertex the scheduler can launch has been launched *)
+  Fixpoint pick_all (fuel : nat) (st : dstate) : dstate :=
+    match fuel with
+    | O => st
+    | S f => match first_some (fun v => dstep st (LPick v)) (vids g) with
+             | Some s => pick_all f (drain f s)
+             | None => st
+             end
+    end.
+
+  Definition FUEL : nat := 4 * List.length (vids g) * List.length (vids g) + 16.
+
+  (* a waiting thread that could take a slot means the implementation is not work conserving *)
+  Definition startable (st : dstate) : bool :=
+    existsb (fun v => match dstep st (LStart v) with Some _ => true | None => false end) (vids g).
+
+  Inductive averdict := AOk (st : dstate) | ABad (why : nat).
+  (* why: 1 Enter not allowed (dependencies / errors / cancellation), 2 Enter without capacity,
+     3 attempt numbering, 4 Exit of a task that is not running, 5 ready task not started,
+     6 the trace ends but the model cannot return, 7 result differs *)
+
+  Definition accept_event (st : dstate) (e : oevent) : averdict :=
+    match e with
+    | OEnter v O =>
+        let st1 := drain FUEL st in
+        let st2 := match d_thread st1 v with
+                   | Waiting => Some st1
+                   | _ => dstep st1 (LPick v)
+                   end in
+        match st2 with
+        | None => ABad 1
+        | Some s2 =>
+            match d_thread s2 v with
+            | Waiting => match dstep s2 (LStart v) with Some s3 => AOk s3 | None => ABad 2 end
+            | _ => ABad 1
+            end
+        end
+    | OEnter v (S k) =>
+        match d_thread st v with Running k' => if Nat.eqb k' (S k) then AOk st else ABad 3 | _ => ABad 3 end
+    | OExit v k r =>
+        match d_thread st v with
+        | Running k' => if Nat.eqb k k' then match dstep st (LExit v r) with Some s => AOk s | None => ABad 4 end else ABad 3
+        | _ => ABad 4
+        end
+    | OCancel => match dstep st LCancel with Some s => AOk (drain FUEL s) | None => AOk st end
+    | OQuiet =>
+        let st1 := pick_all FUEL (drain FUEL st) in
+        if startable st1 then ABad 5 else AOk st1
+    end.
+
+  Fixpoint accept (st : dstate) (es : list oevent) : averdict :=
+    match es with
+    | [] => AOk st
+    | e :: r => match accept_event st e with AOk s => accept s r | bad => bad end
+    end.
+
+  (* after the last event: everything left is skipped by the scheduler, then Run returns *)
+  Definition finish_run (st : dstate) : option dstate :=
+    let st1 := pick_all FUEL (drain FUEL st) in
+    dstep st1 LReturn.
+End Accept.
+
+(* direct trace predicates (no transition system): the properties read off the observed events *)
+Definition final_ok_before (es : list oevent) (v : vid) : bool :=
+  existsb (fun e => match e with OExit u _ ONil => str_eqb u v | _ => false end) es.
+
+Fixpoint p13_deps (g : graph) (seen : list oevent) (es : list oevent) : bool :=
+  match es with
+  | [] => true
+  | e :: r =>
+      (match e with
+       | OEnter v _ => forallb (final_ok_before seen) (v_children (vget g v))
+       | _ => true
+       end) && p13_deps g (seen ++ [e]) r
+  end.
+
+Fixpoint p15_bound (cap : N) (running : nat) (es : list oevent) : bool :=
+  match es with
+  | [] => true
+  | OEnter _ _ :: r => N.leb (N.of_nat (S running)) cap && p15_bound cap (S running) r
+  | OExit _ _ _ :: r => p15_bound cap (Nat.pred running) r
+  | _ :: r => p15_bound cap running r
+  end.
+
+(* Run returned before the loop: no task function may have been entered *)
+Definition no_task_events (es : list oevent) : bool :=
+  forallb (fun e => match e with OEnter _ _ | OExit _ _ _ => false | _ => true end) es.
+
+Definition check_gcase (c : gcase) : bool :=
+  let g := build_graph (gc_ops c) in
+  let cf := mkConfig (gc_serial c) (gc_cap c) in
+  (* construction history: the dot text lists every vertex and edge in creation order *)
+  str_eqb (dot_text [103] g) (gc_dot c) &&
+  (* DepthFirstSort: an error exactly when the model finds a cycle; otherwise a valid order *)
+  (match gc_dfs c, dfs_sort g (keys (g_vs g)) with
+   | Some l, Some (inl _) => valid_topo g l
+   | None, Some (inr _) => true
+   | _, _ => false
+   end) &&
+  negb (gc_hang c) &&
+  match run_prelude g (keys (g_vs g)) with
+  | PreErrs errs => no_task_events (gc_events c) && negb (gc_nil c) && gerrs_same errs (gc_result c)
+  | PreNil => no_task_events (gc_events c) && gc_nil c
+  | PreCycle => no_task_events (gc_events c) && negb (gc_nil c) && gerrs_same [XCycle] (gc_result c)
+  | PreLoop =>
+      p13_deps g [] (gc_events c) &&
+      p15_bound (if gc_serial c then 1 else gc_cap c) 0 (gc_events c) &&
+      match accept g cf (init_state []) (gc_events c) with
+      | ABad _ => false
+      | AOk st =>
+          match finish_run g cf st with
+          | None => false
+          | Some fin =>
+              match d_errs fin with
+              | [] => gc_nil c
+              | errs => negb (gc_nil c) && gerrs_same errs (gc_result c)
+              end
+          end
+      end
+  end.
+
+Definition explain_gcase (c : gcase) : nat :=
+  let g := build_graph (gc_ops c) in
+  let cf := mkConfig (gc_serial c) (gc_cap c) in
+  if negb (str_eqb (dot_text [103] g) (gc_dot c)) then 20
+  else if gc_hang c then 21
+  else match run_prelude g (keys (g_vs g)) with
+       | PreLoop =>
+           if negb (p13_deps g [] (gc_events c)) then 13
+           else if negb (p15_bound (if gc_serial c then 1 else gc_cap c) 0 (gc_events c)) then 15
+           else match accept g cf (init_state []) (gc_events c) with
+                | ABad w => w
+                | AOk st => match finish_run g cf st with None => 6 | Some _ => 7 end
+                end
+       | _ => 22
+       end.
+
+Fixpoint gmismatches_from (i : nat) (cs : list gcase) : list nat :=
+  match cs with
+  | [] => []
+  | c :: cs' => if check_gcase c then gmismatches_from (S i) cs' else i :: gmismatches_from (S i) cs'
+  end.
+Definition gmismatches := gmismatches_from 0.
